@@ -411,17 +411,22 @@ func resolveUnionBatch(ctx context.Context, sources []interface{}, typ *Union, s
 	var workUnits []*WorkUnit
 	for srcType, sources := range sourcesByType {
 		gqlType := typ.Types[srcType]
+		// Resolve every member object exactly once, with the selections made on the
+		// union itself (__typename) and all fragments that apply to its concrete type.
+		// Resolving fragment by fragment would let each one overwrite the result of
+		// the previous one, and leave the object null if no fragment applies.
+		merged := &SelectionSet{Selections: selectionSet.Selections}
 		for _, fragment := range selectionSet.Fragments {
 			if fragment.On != srcType {
 				continue
 			}
-			units, err := resolveObjectBatch(ctx, sources, gqlType, fragment.SelectionSet, destinationsByType[srcType])
-			if err != nil {
-				return nil, err
-			}
-			workUnits = append(workUnits, units...)
+			merged.Fragments = append(merged.Fragments, fragment)
 		}
-
+		units, err := resolveObjectBatch(ctx, sources, gqlType, merged, destinationsByType[srcType])
+		if err != nil {
+			return nil, err
+		}
+		workUnits = append(workUnits, units...)
 	}
 	return workUnits, nil
 }
